@@ -198,6 +198,47 @@ def run(prop, tier, seed, replay=None):
             for st in c["steps"]:
                 st["obs"].setdefault("resolve", {"kind": "skip", "m": ""})
             cases.append(c)
+    if prop == "C07":
+        # value worlds (Dependent / Literal annotations): chains through the per-rank value dispatchers, with the
+        # arguments received and with other values.  Two curated shapes (the recorded deviations) are always present.
+        from . import c10
+
+        vrng = random.Random(seed * 577 + 7)
+        djobs = [j for j in c10.gen_jobs(tier, seed + 500) if c10.judged_ok(j["methods"]) and all(isinstance(c, list) for c in j["calls"])]
+        for q, j in enumerate(djobs[:-1]):
+            npos = len(j["methods"][0]["pos"])
+            for m in j["methods"]:
+                r = vrng.random()
+                if r < 0.5:
+                    m["body"] = "next"
+                elif r < 0.68 and q % 2 == 0:
+                    m["body"] = {"k": "next_with", "vals": [vrng.choice(c10.NAMES[:11]) for _ in range(npos)]}
+                else:
+                    m["body"] = "leaf"
+
+        def lit(*vals):
+            from .. import deprt
+
+            return {"k": "lit", "bound": c10.cls(2), "vals": [deprt.arg_record(v)["v"] for v in vals]}
+
+        def mm(j, t, body):
+            return {"id": f"m{j}", "prio": 0, "reg": j, "pos": [t], "reqpos": 1, "kwn": [], "kwt": [], "kwreq": [], "body": body}
+
+        # Literal[0] delegates with the value 1; a sibling Literal[1] and an int method (DESIGN 9 #11)
+        djobs.append({"id": "C10-kfother", "calls": [["i0"]],
+                      "methods": [mm(1, lit("i0"), {"k": "next_with", "vals": ["i1"]}), mm(2, lit("i1"), "leaf"), mm(3, c10.cls(2), "leaf")]})
+        dres = pool.run(workers.dep_cases, djobs)
+        nv = 0
+        for c in dres:
+            if "skip" in c:
+                continue
+            c["id"] = "C07-v" + c["id"]
+            c["props"] = ["C07V"]
+            for st in c["steps"]:
+                st["obs"].setdefault("resolve", {"kind": "skip", "m": ""})
+            cases.append(c)
+            nv += 1
+        rep.extra["value_world_cases"] = nv
     skipped = [c for c in cases if "skip" in c]
     harness_bugs = [c for c in skipped if c["skip"].startswith("harness")]
     if harness_bugs:
